@@ -120,10 +120,29 @@ func TestValueEquivalence(t *testing.T) {
 		unspecified := false
 		for i := 0; i < n && !unspecified; i++ {
 			w := drawVal(t, fmt.Sprintf("w%d", i))
-			if _, err := v.Set(w); err != nil {
+			var wopts []resource.WriteOption
+			at := ""
+			switch rapid.IntRange(0, 5).Draw(t, fmt.Sprintf("writeTime%d", i)) {
+			case 1:
+				// the writer says when the change happened: a day ago, a day ahead - suppression is about values, not times
+				d := time.Duration(rapid.SampledFrom([]int{-24, -1, 1, 24}).Draw(t, fmt.Sprintf("hours%d", i))) * time.Hour
+				wopts = append(wopts, resource.WithWriteTime(time.Now().Add(d)))
+				at = fmt.Sprintf(" @now%+v", d)
+			case 2:
+				wopts = append(wopts, resource.WithWriteTime(time.Time{}))
+				at = " @zero time"
+			case 3:
+				wopts = append(wopts, resource.WithWriteTime(time.Unix(0, 0)))
+				at = " @epoch"
+			}
+			if _, err := v.Set(w, wopts...); err != nil {
 				t.Fatalf("Set: %v", err)
 			}
 			nv := lib.RefProject(w, mask)
+			if at != "" {
+				hist = append(hist, "(next written"+at+")")
+				lib.Ev.Class("resource:value written with a caller-chosen time")
+			}
 			if held == nil && updatesOnly && initial != nil && eq.eq(lib.RefProject(initial, mask), nv) {
 				// an updates-only subscriber holds nothing yet; whether a write equivalent to the current value
 				// reaches it is not fixed by the statement: stop comparing here
